@@ -1,7 +1,7 @@
 (* Instances.v — the refinement theorems instantiated at the regenerated
    tables (fold121 = CaseFold over coq/gen/Tables121.v, lower_pkg = the
    _lower table of each package): what the Properties files quote. *)
-From Strcase Require Import Base Utf8 Utf8Facts Spec SpecIndex Impl Impl2 Refine_Compare Refine_Prefix Refine_Suffix
+From Strcase Require Import Base Utf8 Utf8Facts Spec SpecIndex Impl Impl2 Impl3 Refine_Compare Refine_Prefix Refine_Suffix Refine_Count
   Fold FoldFacts FoldTables FoldFacts121.
 
 Theorem width_facts121 : width_facts fold121.
@@ -50,5 +50,17 @@ Proof. apply (trimsuffix_refines fold121 lower (fold_facts_pkg p) width_facts121
 Theorem cutsuffix_refines121 s suffix :
   wf s -> wf suffix -> CutSuffix fold121 lower s suffix = Ok (cut_suffix fold121 s suffix).
 Proof. apply (cutsuffix_refines fold121 lower (fold_facts_pkg p) width_facts121). Qed.
+
+(* Count and Cut are loops around Index: instantiated with Index's specification *)
+Definition idx_spec (s t : bytes) : res Z := Ok (index fold121 s t).
+
+Theorem count_refines_general121 s sub :
+  wf s -> wf sub -> (forall c, sub = [c] -> 128 <= c) ->
+  Count idx_spec p s sub = Ok (count fold121 s sub).
+Proof. apply (count_refines_general fold121 idx_spec). intros; reflexivity. Qed.
+
+Theorem cut_refines121 s sep :
+  wf s -> wf sep -> Cut idx_spec p s sep = Ok (cut fold121 s sep).
+Proof. apply (cut_refines fold121 idx_spec). intros; reflexivity. Qed.
 
 End Inst.
